@@ -163,6 +163,62 @@ Hist(c) ==
   IN  Chunks(1, [base |-> z, tie |-> z, nt |-> 0])
 
 (***************************************************************************)
+(* Scale: translation-invariant configurations.  One frame, an orthogonal  *)
+(* fully periodic cell filled by the full lattice n_1 x .. x n_d (spacing  *)
+(* a), coloured "one" (a single species) or "checker" (species 1 + parity  *)
+(* of the site indices, every n_k even): a lattice translation that maps   *)
+(* one a-site to another maps the whole coloured lattice onto itself, so   *)
+(* all a-particles see the same environment and the ordered count of a     *)
+(* column is N_a times the count seen from ONE a-particle - linear instead *)
+(* of quadratic in N.  MC_PairHist!LatticeLemma (evaluated by TLC at the   *)
+(* start of every run) proves HistLat = Hist on small lattices; the trace  *)
+(* mode uses HistAuto, so lattices of a thousand particles and more are    *)
+(* decided (accumulators of narrow type, size-dependent code paths).       *)
+(***************************************************************************)
+LatIndex(n, m) ==      \* 0-based site indices of the m-th site in row-major order
+  IF Len(n) = 2 THEN <<(m - 1) \div n[2], (m - 1) % n[2]>>
+  ELSE <<(m - 1) \div (n[2] * n[3]), ((m - 1) \div n[3]) % n[2], (m - 1) % n[3]>>
+LatColour(colour, ix) == IF colour = "one" THEN 1 ELSE 1 + (SumSeq(ix) % 2)
+IsTypedLattice(c) ==
+  /\ "lat" \in DOMAIN c /\ NFrames(c) = 1 /\ "Hs" \notin DOMAIN c /\ "tys" \notin DOMAIN c
+  /\ LET d == NDim(c) n == c.lat.n a == c.lat.a IN
+     /\ Len(n) = d /\ c.lat.colour \in {"one", "checker"}
+     /\ \A k \in 1..d : c.ppp[k] = 1 /\ (c.lat.colour = "checker" => n[k] % 2 = 0) /\
+                          \A j \in 1..d : c.H[k][j] = (IF j = k THEN n[k] * a ELSE 0)
+     /\ NPart(c) = ProdSeq(n)
+     \* every site once, with the colour of its indices (positions must be exact multiples of a inside the cell)
+     /\ \A i \in 1..NPart(c) : \A k \in 1..d : c.frames[1][i][k] % a = 0 /\ c.frames[1][i][k] \div a \in 0..(n[k] - 1)
+     /\ Cardinality({c.frames[1][i] : i \in 1..NPart(c)}) = NPart(c)
+     /\ \A i \in 1..NPart(c) : c.types[i] = LatColour(c.lat.colour, [k \in 1..d |-> c.frames[1][i][k] \div a])
+\* counts seen from particle r: cnt[b][k] ordered pairs (r, j), type_j = b, certainly in bin k; tie likewise; nt ambiguous pairs
+FromOne(c, r) ==
+  LET nb == NBins(c)
+      K  == NSpecies(c)
+      bins == TLCEval([j \in 1..NPart(c) |-> IF j = r THEN {0 - 1} ELSE PairBins(c, 1, r, j)])
+      sure(j) == Cardinality(bins[j]) = 1
+  IN  [ cnt |-> [b \in 1..K |-> [k \in 1..nb |->
+                   Cardinality({j \in 1..NPart(c) : j # r /\ c.types[j] = b /\ sure(j) /\ (k - 1) \in bins[j]})]],
+        tie |-> [b \in 1..K |-> [k \in 1..nb |->
+                   Cardinality({j \in 1..NPart(c) : j # r /\ c.types[j] = b /\ ~sure(j) /\ (k - 1) \in bins[j]})]],
+        nt  |-> Cardinality({j \in 1..NPart(c) : j # r /\ ~sure(j)}) ]
+HistLat(c) ==
+  LET cols == ColSeq(NSpecies(c))
+      nb   == NBins(c)
+      K    == NSpecies(c)
+      rep  == [a \in 1..K |-> CHOOSE i \in 1..NPart(c) : c.types[i] = a /\ \A j \in 1..NPart(c) : c.types[j] = a => i <= j]
+      one  == TLCEval([a \in 1..K |-> FromOne(c, rep[a])])
+      Ord(f, a, b, k) == CountOf(c, a) * f[a][b][k]                 \* ordered pairs a -> b in bin k
+      Col(f, q, k) ==
+        IF cols[q] = Total THEN SumSeq([m \in 1..(K * K) |-> Ord(f, ((m - 1) \div K) + 1, ((m - 1) % K) + 1, k)])
+        ELSE Ord(f, cols[q][1], cols[q][2], k)                      \* a = b: ordered; a < b: unordered cross pairs = ordered a -> b
+      cntf == [a \in 1..K |-> one[a].cnt]
+      tief == [a \in 1..K |-> one[a].tie]
+  IN  [ base |-> [q \in 1..Len(cols) |-> [k \in 1..nb |-> Col(cntf, q, k)]],
+        tie  |-> [q \in 1..Len(cols) |-> [k \in 1..nb |-> Col(tief, q, k)]],
+        nt   |-> SumSeq([a \in 1..K |-> CountOf(c, a) * one[a].nt]) \div 2 ]
+HistAuto(c) == IF IsTypedLattice(c) THEN HistLat(c) ELSE Hist(c)
+
+(***************************************************************************)
 (* Real-valued parts, as terms.                                            *)
 (***************************************************************************)
 CdTerm(d)     == IF d = 3 THEN Q(4, 3) ELSE Q(1, 1)
@@ -207,7 +263,7 @@ CountsSymmetric(c, h) ==
 (* The case handed to the conformance driver.                              *)
 (***************************************************************************)
 Case(c) ==
-  LET h    == Hist(c)
+  LET h    == HistAuto(c)
       cols == ColSeq(NSpecies(c))
       nb   == NBins(c)
   IN  [ m      |-> "PairHist",
